@@ -23,11 +23,11 @@ WindowSane == \A D \in Days : /\ WindowStart(s, D) < WindowEnd(s, D)
 
 \* Role 2: one JSON line per schedule: the instants (ascending) and the
 \* predicted answer for each.
-SetToSeq(S) == SetToSortSeq(S, LAMBDA x, y : x < y)
+SortedSeq(S) == SetToSortSeq(S, LAMBDA x, y : x < y)
 Dump ==
-    LET ts == SetToSeq(Instants(s, Days))
-    IN PrintT(ToJson([sm |-> s.sm, em |-> s.em, wds |-> SetToSeq(s.wds),
-                      dates |-> SetToSeq(s.dates), w0 |-> s.w0,
+    LET ts == SortedSeq(Instants(s, Days))
+    IN PrintT(ToJson([sm |-> s.sm, em |-> s.em, wds |-> SortedSeq(s.wds),
+                      dates |-> SortedSeq(s.dates), w0 |-> s.w0,
                       ts |-> ts,
                       exp |-> [i \in 1..Len(ts) |-> Active(s, ts[i])]]))
 
